@@ -18,6 +18,7 @@ import json, copy
 import vlib
 from checks import refs_shared as rs
 from checks import refs_nested as rn
+from checks import refs_attr as ra
 from checks.refs_shared import gen_pexp, gen_state, pexp_depth, pexp_ops, cpexp, cterm, cstate, cxres, clit, Unrep
 
 RUNNER = "refs_runner.py"
@@ -253,6 +254,46 @@ def run(ctx):
     ctx.evaluations += 2 * (nprobes + nstmts + len(eitems))
     ctx.traces += 2 * len(ncases)
 
+    # ---- (e) attribute access on values and on expression results, methods through attributes ----
+    acases = [c for c in (ra.gen_case(ctx.rng) for _ in range(ctx.pick(260, 6000))) if c is not None]
+    astats, anames = {}, set()
+    for c in acases:
+        st = c.pop("stats")
+        anames |= st.pop("names", set())
+        for k, v in st.items():
+            astats[k] = astats.get(k, 0) + v
+    aparts = list(vlib.chunks(acases, max(1, (len(acases) + 15) // 16)))
+    aboth = rs.run_both([{"mode": "c04", "classes": classes, "fns": fns, "cases": p} for p in aparts])
+    ares = {b: [r for part in aboth[b] for r in part["results"]] for b in aboth}
+    cerrs += rs.case_errors(ares)
+    aoracle, aitems, aidx, amism = [], [], [], []
+    for i, c in enumerate(acases):
+        if rs.has_error(ares, i):
+            continue
+        for b in ("compiled", "pure"):
+            r = ares[b][i]
+            if any(o is not None for o in r.get("oracle", [])) or "build_error" in r:
+                aoracle.append((i, b))
+        if ares["compiled"][i].get("term") != ares["pure"][i].get("term"):
+            build_diff.append(("attr", i))
+        try:
+            if ares["compiled"][i].get("term") is not None:
+                aitems.append(f"({cpexp(c['pexp'])}, {cterm(ares['compiled'][i]['term'])}, [])"); aidx.append(i)
+        except Unrep:
+            pass
+    if coq_ok and aitems:
+        try:
+            mm, _ = rs.eval_chunks(ctx, aitems, "c04case", "c04_mismatches", "a", per=200)
+            amism = [aidx[k] for k in mm]
+        except vlib.InfraError as e:
+            if proof_ok:
+                raise
+            coq_ok = False
+    for n in anames:
+        ctx.nontrivial.add("attrname:" + n)
+    ctx.evaluations += 4 * len(acases)
+    ctx.traces += 2 * len(acases)
+
     # ---- (c) the oracle sweep ---------------------------------------------------------------
     nsweep, kinds, sfails = sweep(ctx, ids, ctx.pick(0.35, 1.0))
     ctx.evaluations += nsweep
@@ -264,6 +305,8 @@ def run(ctx):
                                      "states_total": sum(len(c["states"]) for c in cases),
                                      "inplace_cases": len(icases), "inplace_compared": len(iitems),
                                      "sweep_cases_per_build": nsweep // 2, "sweep_kinds": kinds,
+                                     "attribute_cases": len(acases), "attribute_node_kinds": astats, "attribute_names_used": len(anames),
+                                     "attribute_names_sample": sorted(anames)[:60],
                                      "nested_cases": len(ncases), "nested_setup_errors": sum(1 for r in nres["compiled"] if "setup_error" in r),
                                      "nested_probes_compared": nprobes, "nested_inplace_statements_compared": nstmts,
                                      "nested_eval_texts": len(eitems), "nested_statement_relation_x_value_kind": rel_hist}
@@ -276,6 +319,9 @@ def run(ctx):
                             coq_ok and not nmism and not emism and not ndiff, f"{len(nmism)} mismatching cases of {len(nitems)}, {len(emism)} _eval texts, {len(ndiff)} differing between builds"))
     ctx.obligations.append(("oracle (nested layouts): in-place result built from the location's own definition else its own value; _expr = task registered under the reference; _value = container content (both builds)",
                             not noracle, f"{len(noracle)} failing of {len(ncases)}"))
+    ctx.obligations.append(("attribute access / methods through attributes on values and expression results (names found by introspection): "
+                            "structure built = model build, deferred value = Python's getattr/call on the current values (both builds)",
+                            coq_ok and not amism and not aoracle, f"{len(aoracle)} oracle failures, {len(amism)} structure mismatches, of {len(acases)} cases, {len(anames)} names"))
     ctx.obligations.append(("oracle: deferred value = direct Python evaluation on every random tree and state (both builds)", not oracle_fail, f"{len(oracle_fail)} failing"))
     ctx.obligations.append(("oracle sweep: operator x operand order x value samples, builtins, calls, access, in-place (both builds)", not sfails, f"{len(sfails)} failing of {nsweep}"))
     ctx.obligations.append(("every class met is known to the translator", not unknown, ", ".join(unknown)))
@@ -294,13 +340,19 @@ def run(ctx):
         bad, r = rn.case_fails(small, ids, b)
         vlib.violation(ctx, {"kind": "nested", "what": "in-place operator / derived property of a location not determined by the location's own definition and value",
                              "build": b, "case": small, "problems": r.get("oracle"), "how_to_replay": "./check C04 --replay <this file>"})
+    elif aoracle:
+        i, b = aoracle[0]
+        small = shrink_tree(acases[i], ids, b)
+        bad, r = tree_fails(small, ids, b)
+        vlib.violation(ctx, {"kind": "tree", "what": "attribute access / method call on a value or expression result: deferred differs from direct Python evaluation",
+                             "build": b, "case": small, "observed": r, "how_to_replay": "./check C04 --replay <this file>"})
     elif oracle_fail:
         i, b = oracle_fail[0]
         small = shrink_tree(cases[i], ids, b)
         bad, r = tree_fails(small, ids, b)
         vlib.violation(ctx, {"kind": "tree", "what": "deferred evaluation differs from direct Python evaluation", "build": b,
                              "case": small, "observed": r, "how_to_replay": "./check C04 --replay <this file>"})
-    elif mism or imism or nmism or emism or ndiff or build_diff or unknown or cerrs or not proof_ok or not coq_ok:
+    elif mism or imism or nmism or emism or amism or ndiff or build_diff or unknown or cerrs or not proof_ok or not coq_ok:
         what = list(getattr(ctx, "broken", []))
         rs.describe_errors(cerrs, what)
         if mism:
@@ -315,6 +367,8 @@ def run(ctx):
             what.append(f"nested-layout correspondence broke on {len(nmism)} cases, first: defs={json.dumps(ncases[i]['defs'])} observed={json.dumps(nres['compiled'][i])[:1500]}")
         if emism:
             what.append(f"_eval correspondence broke on {len(emism)} texts")
+        if amism:
+            what.append(f"attribute-stream structure correspondence broke on {len(amism)} cases, first: {json.dumps(acases[amism[0]]['pexp'])} built={json.dumps(ares['compiled'][amism[0]].get('term'))}")
         if ndiff:
             what.append(f"compiled and pure builds differ on {len(ndiff)} nested cases, first: {json.dumps(ncases[ndiff[0]]['defs'])}")
         if unknown:
